@@ -23,7 +23,8 @@ EV_PROP = {
     "acquired": "C15", "locked": "C15", "acquiring": "C15", "locking": "C15", "write": "C15", "flush": "C15", "releasing": "C15", "unlocking": "C15", "frag": "C15",
     "idle": "C16", "sort": "C16", "run": "C16", "alldone": "C16", "hang": "C16", "panic": "C16",
     "add": "C16", "dep": "C16", "retries": "C16", "deferr": "C16", "config": "C16",
-    "dot": "C16", "validate": "C16", "rerun": "C16", "tmadd": "C16", "tmgetbad": "C16",
+    "dot": "C16", "validate": "C16", "rerun": ("C14", "C16"), "tmadd": "C16", "tmgetbad": "C16",
+    "continue": ("C14", "C16"), "setlimit": "C15", "starved": "C16",
 }
 DIAG_PROP = {
     "dependency-not-finished": ("C13",), "launched-twice": ("C13",),
@@ -75,7 +76,8 @@ MC_CONFIGS = {
     "C15": {
         "quick": [mc("limits", limits="{1, 2, 3}", serials="{FALSE, TRUE}", outcomes='{"nil", "err"}'),
                   mc("buffer", tasks="{1, 2}", maxretries=1, buffereds="{TRUE}", maxfrags=2, limits="{1, 2}"),
-                  mc("shared", tasks="{1, 2}", envlock="TRUE", limits="{1, 2}", serials="{FALSE, TRUE}")],
+                  mc("shared", tasks="{1, 2}", envlock="TRUE", limits="{1, 2}", serials="{FALSE, TRUE}"),
+                  mc("continued", mode="cont", maxhist=3, limits="{1, 2}", outcomes='{"nil"}')],
         "thorough": [mc("limits", limits="{1, 2, 3}", serials="{FALSE, TRUE}", cancel="TRUE"),
                      mc("buffer3", tasks="{1, 2, 3}", maxretries=0, buffereds="{TRUE}", maxfrags=2, limits="{1, 2}", outcomes='{"nil", "err"}'),
                      mc("buffer", tasks="{1, 2}", maxretries=1, buffereds="{TRUE}", maxfrags=2, limits="{1, 2}", cancel="TRUE"),
@@ -84,6 +86,7 @@ MC_CONFIGS = {
     "C16": {
         "quick": [mc("histories", mode="build", maxhist=4, limits="{2}", outcomes='{"nil"}'),
                   mc("taskmap", mode="build", tasks="{1, 2}", maxhist=4, limits="{2}", outcomes='{"nil"}', taskmap="TRUE"),
+                  mc("continued", mode="cont", maxhist=3, limits="{1, 2}", outcomes='{"nil", "err"}'),
                   mc("liveness", spec="LiveSpec", tasks="{1, 2}", maxretries=1, limits="{1, 2}", serials="{FALSE, TRUE}", cancel="TRUE", props=LIVE)],
         "thorough": [mc("histories5", mode="build", maxhist=5, limits="{2}", outcomes='{"nil"}'),
                      mc("taskmap", mode="build", maxhist=4, limits="{2}", outcomes='{"nil"}', taskmap="TRUE"),
@@ -114,6 +117,7 @@ DRIVERS = {
             ("follow", [], 800, 16000)],
     "C16": [("rand", ["-maxv", "4", "-weird", "0.6"], 480, 12000), ("rand", ["-maxv", "3", "-weird", "0.9"], 160, 4000),
             ("exhaust", ["-v", "3", "-outs", "nil,err", "-orders", "1", "-limit", "1"], 0, 0),
+            ("rand", ["-maxv", "5", "-weird", "0", "-fill"], 240, 6000),  # fill-the-semaphore schedules (incl. a second round with another limit)
             ("exhaust", ["-v", "0", "-outs", "nil", "-orders", "3"], 0, 0),  # the empty graph (plain, reversed, shuffled: the same)
             ("exhaust", ["-v", "1", "-outs", "nil,err,skipparents", "-orders", "1", "-serial"], 0, 0),
             ("follow", [], 480, 16000)],
@@ -211,7 +215,7 @@ def stall_reproduces(dagdrive, work, name, plan):
     if p.returncode != 0:
         return True
     with open(out) as f:
-        return any('"ev":"hang"' in l for l in f)
+        return any('"ev":"hang"' in l or '"ev":"starved"' in l for l in f)
 
 
 def reproduce_crash(dagdrive, work, name, plan):
@@ -385,7 +389,7 @@ def check(prop, tier, seed, work, replay, t0):
     for r in results:
         keep = []
         for rj in r["rej"]:
-            if rj["event"].get("ev") == "hang" and r["plans"] and os.path.exists(r["plans"]):
+            if rj["event"].get("ev") in ("hang", "starved") and r["plans"] and os.path.exists(r["plans"]):
                 plan = None
                 with open(r["plans"]) as f:
                     for line in f:
@@ -411,6 +415,8 @@ def check(prop, tier, seed, work, replay, t0):
                 viols.append(dict(kind="reject", res=r, rej=rj))
             else:
                 notes += 1
+                if os.environ.get("VERIF_TRIAGE"):
+                    log("  (other property %s) run %s: event %s invariant=%s why=%s" % (attribute(rj), rj.get("run"), json.dumps(rj["event"]), rj["invariant"], rj["why"]))
     if race_note and race_note.get("violation"):
         viols.append(dict(kind="race", res=None, rej=None, detail=race_note["violation"]))
     rc = 0
